@@ -1,6 +1,7 @@
 package http
 
 var verifHarnesses = map[string]func(){
+	"VerifC18PosMapLongNames":      VerifC18PosMapLongNames,
 	"VerifC18PosMapRoundTrip":      VerifC18PosMapRoundTrip,
 	"VerifC18PosMapHostile":        VerifC18PosMapHostile,
 	"VerifC06StreamHandler":        VerifC06StreamHandler,
